@@ -186,6 +186,14 @@ func inlineBlock(module *Module, caller *Function, block Block, shouldInline fun
 				out = append(out, stmt)
 				continue
 			}
+			if blockReturnsInsideLoopOrSwitch(callee.Body, false) {
+				// A return is rewritten to a break out of the loop that wraps
+				// the inlined body. Inside a loop or switch of the callee's own
+				// that break would only leave the inner construct, so such a
+				// callee is left as a call.
+				out = append(out, stmt)
+				continue
+			}
 			inlined, inlineErr := inlineOneCall(module, caller, sk, callee)
 			if inlineErr != nil {
 				return nil, false, inlineErr
@@ -770,6 +778,38 @@ func blockHasEarlyReturn(block Block) bool {
 			}
 		case StmtBlock:
 			if blockHasEarlyReturn(sk.Block) {
+				return true
+			}
+		}
+	}
+	return false
+}
+
+// blockReturnsInsideLoopOrSwitch reports whether a StmtReturn sits inside a
+// loop or switch of the block (inBreakable: the walk is already inside one).
+func blockReturnsInsideLoopOrSwitch(block Block, inBreakable bool) bool {
+	for i := range block {
+		switch sk := block[i].Kind.(type) {
+		case StmtReturn:
+			if inBreakable {
+				return true
+			}
+		case StmtIf:
+			if blockReturnsInsideLoopOrSwitch(sk.Accept, inBreakable) || blockReturnsInsideLoopOrSwitch(sk.Reject, inBreakable) {
+				return true
+			}
+		case StmtSwitch:
+			for j := range sk.Cases {
+				if blockReturnsInsideLoopOrSwitch(sk.Cases[j].Body, true) {
+					return true
+				}
+			}
+		case StmtLoop:
+			if blockReturnsInsideLoopOrSwitch(sk.Body, true) || blockReturnsInsideLoopOrSwitch(sk.Continuing, true) {
+				return true
+			}
+		case StmtBlock:
+			if blockReturnsInsideLoopOrSwitch(sk.Block, inBreakable) {
 				return true
 			}
 		}
